@@ -94,9 +94,11 @@ Differs(e) == LET j == JDb(e.db) IN {k \in DOMAIN db' : db'[k] # j[k]}
 
 Agrees(e) ==
   /\ last'.res = e.res
-  /\ e.res = "fail" => e.cls \in Coarse(e.op, last'.app)
+  /\ ~e.lost                 \* the transaction function returned an error and Db.Update returned nil
+  \* the class of the error matters where a property names it (duplicate value, reference exists, veto); elsewhere any error will do
+  /\ (e.res = "fail" /\ last'.app # {} /\ last'.app \subseteq {"dup", "refExists", "veto"}) => e.cls \in Coarse(e.op, last'.app)
   /\ (e.res = "ok" /\ e.op \in {"addLink", "removeLink", "rcInc", "rcDec", "rcSet"}) => ToString(last'.ret) = e.ret
-  /\ e.db.extra = << >>
+  \* (e.db.extra lists what the recorder could not express in the model's vocabulary: outside the specification, printed on a rejection)
   /\ db' = JDb(e.db)
   /\ EventsAgree(e)
 
